@@ -57,6 +57,7 @@ class Machine:
         self.hooked = hooked
         self.unknown = set()
         self.unknown_mem = set()
+        self.unknown_bits = {}
         self.branched = False
         self.thumb = bool((self.s['cpsr'] >> 5) & 1)
         self.ilen = 4
@@ -552,6 +553,26 @@ class Machine:
             self.enter_mode_common(MODES['fiq'], lr, 0x1C, mask_a=True, mask_f=True)
             if ve:
                 self.branch_to(self.cfg['impdef_fiq_vector'])
+
+    def write_hsr(self, ec, hsr_string, cond=None, cond_passed=True):
+        """WriteHSR(): EC, ISS; the IL bit is left UNKNOWN (its rule differs between manual revisions)"""
+        v = (ec & 0x3F) << 26
+        if (ec >> 4) == 0 and (ec & 15) != 0:
+            if not self.thumb:
+                v |= 1 << 24
+                v |= (cond if cond is not None else 14) << 20
+            else:
+                if self.cfg.get('write_hsr_hsr_value_24'):
+                    v |= 1 << 24
+                    c = cond if cond is not None else 14
+                    if cond_passed and not self.cfg.get('write_hsr_23_22_cond'):
+                        c = 14
+                    v |= c << 20
+            v |= hsr_string & 0xFFFFF
+        else:
+            v |= hsr_string & 0x1FFFFFF
+        self.s['hsr'] = v
+        self.unknown_bits['hsr'] = 1 << 25
 
     # ------------------------------------------------------------------------------ fault status
     def report_abort(self, ab):
